@@ -105,6 +105,26 @@ func readRFC3339(s string) (sec int64, nsec int, strict bool) {
 	return sec, nsec, true
 }
 
+// impossibleRFC3339: the text has the RFC 3339 shape but its month, day (for that month and year), hour or minute
+// does not exist. Such a text denotes no instant, so whatever is stored for it is not "the value the JSON denotes"
+// (second 60 and unusual offsets are left alone: leap seconds are legal RFC 3339 and readers differ on offsets).
+func impossibleRFC3339(s string) bool {
+	m := rfc3339RE.FindStringSubmatch(s)
+	if m == nil {
+		return false
+	}
+	n := func(x string) int64 { v, _ := strconv.ParseInt(x, 10, 64); return v }
+	y, mo, d, h, mi := n(m[1]), n(m[2]), n(m[3]), n(m[4]), n(m[5])
+	if mo < 1 || mo > 12 || d < 1 || h > 23 || mi > 59 {
+		return true
+	}
+	dim := []int64{31, 28, 31, 30, 31, 30, 31, 31, 30, 31, 30, 31}[mo-1]
+	if mo == 2 && (y%4 == 0 && (y%100 != 0 || y%400 == 0)) {
+		dim = 29
+	}
+	return d > dim
+}
+
 const b64alpha = "ABCDEFGHIJKLMNOPQRSTUVWXYZabcdefghijklmnopqrstuvwxyz0123456789+/"
 
 // readBase64 decodes canonical, padded standard base64. strict=false: not canonical.
@@ -241,6 +261,9 @@ func judgeLiteral(k int, null bool, text string, accepted bool, got any) (string
 		}
 		sec, nsec, strict := readRFC3339(jv.Str)
 		if !strict {
+			if impossibleRFC3339(jv.Str) {
+				return "impossible-time-accepted", fmt.Sprintf("%s names a date or time of day that does not exist, yet it was accepted (stored %s)", text, describeGo(got))
+			}
 			return "lenient", ""
 		}
 		if ok, msg := matchVal(Val{K: k, Null: null, Sec: sec, Nsec: nsec}, got, true); !ok {
